@@ -11,7 +11,7 @@ ROOT = os.path.dirname(os.path.dirname(os.path.abspath(__file__)))
 
 
 def run(wt, prop, tier="quick"):
-    env = dict(os.environ, VERIF_REPO=wt, VERIF_EVIDENCE_DIR="/tmp/seed_evidence")
+    env = dict(os.environ, VERIF_REPO=wt, VERIF_EVIDENCE_DIR=os.environ.get("VERIF_EVIDENCE_DIR", "/tmp/seed_evidence"))
     t0 = time.time()
     r = subprocess.run([os.path.join(ROOT, "check"), prop, tier], capture_output=True, text=True, env=env, cwd=ROOT)
     lines = [l for l in r.stdout.splitlines() if l.startswith(("VIOLATION", "KNOWN-FINDING", "[" + prop))]
